@@ -14,7 +14,7 @@ GEN = []
 LEAN = ["Ymq.Props.C19"]
 AUDIT = "Ymq.Audit.C19"
 THEOREMS = ["Ymq.C19." + t for t in (
-    "crt_symmetric crt_sparse_symmetric perm_sign snf_ops_unimodular_partial snf_diag snf_reduce_cols_iso_partial").split()]
+    "crt_symmetric crt_sparse_symmetric perm_sign snf_ops_unimodular_partial snf_diag snf_reduce_cols_iso_partial echelon_det_partial").split()]
 HYPOTHESES = ["inv_mod64_spec = Ymq.IntMat.InvSpec (theorems crt_symmetric, crt_sparse_symmetric): arith::inv_mod64(a, p) returns Some(i) with "
               "i < p and a*i = 1 (mod p) whenever p > 1 and gcd(a, p) = 1 (property C08); the driver instantiates it with the C08 model invMod64"]
 PROFILES = ["release", "chk"]
@@ -1113,6 +1113,9 @@ def cases(tier, rng, extended=False):
 def followup(case, ans):
     """model requests built from the implementation's answer: SmithNormalForm::new / new+reduce with the
     lattice index found by the (unmodelled, floating-point guided) compute_lattice_index as input"""
+    if case.op in ("im_echelon", "im_detp") and case.o and ans not in BAD:
+        # second model of the echelon builder (plain residues, sequential elimination): object of echelon_det
+        return (f"{case.op}_plain {case.args[0]} {case.args[1]}", ans)
     if case.op not in ("im_snf", "im_snf_new") or ans in BAD:
         return None
     rels = case.args[0]
@@ -1634,6 +1637,8 @@ MODELLED = [
     "intdense::crt incl. I4096 overflow, and intsparse::crt/_crt (value level) — Ymq/Model/IntMat.lean",
     "GFpEchelonBuilder::{new, add (sequential and 8-row blocked elimination), div, submul, submul_n, det incl. the permutation-sign "
     "cycle walk} in Montgomery form on top of the C07 word model; det_matz prime walk and CRT; CRTDetBuilder::det with its shared echelons",
+    "second model EchP of GFpEchelonBuilder::{add, det} in plain residues with sequential elimination (object of echelon_det_partial), answered "
+    "by the driver through follow-up requests im_echelon_plain / im_detp_plain and compared with the implementation",
     "candidate selection of intdense::compute_lattice_index (gcd accumulation, window widening, m1..m2 scan, uniqueness) in exact "
     "rational arithmetic; complete for single-column matrices",
     "SmithNormalForm::{new (dense conversion), reduce, reduce_rows, reduce_cols, eliminate_block, eliminate, submul_n, normalize, "
@@ -1655,7 +1660,8 @@ CLAIM = ("Lean theorems, for all inputs, about executable models of intdense.rs:
          "(normalize, submul_n, eliminate, colsub, colswap act on the relation module (Z/h)^n-rowspace by invertible Z/h-linear maps: row operations keep "
          "it, column operations map it and q by the same automorphism; i128 path 0 < h < 2^63), snf_diag (a state returned by reduce is diagonal and "
          "its diagonal multiplies to h), snf_reduce_cols_iso_partial (the whole column phase reduce_cols is one automorphism phi of (Z/h)^n: relation "
-         "module of the output = phi-image of the input's, q = matrix of phi, quotient groups isomorphic; same path). The models (also of the Montgomery-form echelon builder, det_matz, CRTDetBuilder with its shared echelons, the "
+         "module of the output = phi-image of the input's, q = matrix of phi, quotient groups isomorphic; same path), echelon_det_partial (reference echelon builder EchP in plain residues with sequential elimination: when all "
+         "n rows of an n x n matrix are accepted, det() = determinant mod p, sign included; no assumption on inv_mod64 or primality). The models (also of the Montgomery-form echelon builder, det_matz, CRTDetBuilder with its shared echelons, the "
          "lattice-index candidate selection and the whole SmithNormalForm reduction incl. the I256 path) are tied to the code by differential runs in both "
          "build profiles; a Python exact-integer oracle (Bareiss determinant, diagonalisation modulo the determinant, gcd of minors) judges every "
          "implementation answer: determinants with sign, dense/sparse agreement, lattice index inside the bracket, diagonal presentation with product = "
@@ -1663,9 +1669,11 @@ CLAIM = ("Lean theorems, for all inputs, about executable models of intdense.rs:
 LEVEL_NOTE = ("Partial by design: the floating-point estimate windows of compute_lattice_index (GramBuilder row filter, log2 estimates) and the "
               "Wiedemann/Berlekamp-Massey code of intsparse.rs have no Lean model (oracle only); snf_ops_unimodular is proved as _partial for the i128 "
               "arithmetic path (h < 2^63, one source row): the I256 path and the 8-row block of eliminate_block need the correctness of the reciprocal "
-              "reduction modh256, which is compared with the code and oracle-checked but not proved; echelon_det (determinant mod p = sign * product of "
-              "pivots for GFpEchelonBuilder::add/det) and the composition of the operation theorems over the loops of reduce_rows (which also discards "
-              "relations and generators) are not proved (covered by K and by the oracle only); the column phase reduce_cols is composed "
+              "reduction modh256, which is compared with the code and oracle-checked but not proved; echelon_det is proved as _partial for a second, "
+              "plain-arithmetic sequential model EchP of GFpEchelonBuilder::add/det (accepted rows only): the Montgomery-form blocked model Ech that "
+              "mirrors the code line by line is not related to EchP by a proof, both are compared with the implementation on every echelon request "
+              "(two K streams); the rejected-row case (det = 0 mod p) is not proved; the composition of the operation theorems over the loops of "
+              "reduce_rows (which also discards relations and generators) is not proved (K and oracle only); the column phase reduce_cols is composed "
               "(snf_reduce_cols_iso_partial). Integer determinants are not invariants of the "
               "Smith-form operations because every step reduces modulo h; the proved invariant is the relation module modulo h. Five algorithmic "
               "limitations of the code are listed as known findings (refusals and false zeros, see known_findings.json); 9 defects were repaired by "
